@@ -297,6 +297,30 @@ def fixed_cases() -> list:
     return cs
 
 
+def exhaustive_cases() -> list:
+    """Thorough tier: every sequence of three writers of one container (assign / += / [...] = for each), for each
+    of the six container kinds, under debug, one readout and two non-destructive readouts."""
+    L = last_model
+    out = []
+    kinds = [("photon", "float64", 0), ("photon", "float64", 2), ("pixel", "float64", 0), ("signal", "float32", 0),
+             ("image", "uint16", 0), ("charge", "float64", 0)]
+    modes = ["assign", "iadd", "iset"]
+    for b, dt, waves in kinds:
+        for m0 in modes:
+            for m1 in modes:
+                for m2 in modes:
+                    for n, nd in ((1, False), (2, True)):
+                        ps = lambda base: [base + 11 * i for i in range(n)]  # noqa: E731
+                        w = lambda mode, base, idiom: dict(kind="write", bucket=b, dtype=dt, waves=waves, mode=mode,  # noqa: E731
+                                                           idiom=idiom, per_step=ps(base))
+                        out.append(dict(rows=1, cols=2, start=0, times=[8 * (i + 1) for i in range(n)], nondestr=nd, hier=False,
+                                        debug=True,
+                                        models=[dict(group="photon_collection", name="e0", actions=[w(m0, 3, 0)]),
+                                                dict(group="charge_generation", name="e1", actions=[w(m1, 40, 1)]),
+                                                dict(group="charge_collection", name="e2", actions=[w(m2, 500, 2)]), L()]))
+    return out
+
+
 # ------------------------------------------------------------------------------------------ Coq emission
 
 
@@ -631,6 +655,10 @@ def run(ctx: Ctx):
         cases.append(gen_case(r, f))
     while len(cases) < budget:
         cases.append(gen_case(r))
+    if not ctx.quick:
+        ex = exhaustive_cases()
+        ctx.cov["exhaustive_writer_sequences"] = len(ex)
+        cases += ex
     pairs, mism, viol = evaluate(ctx, cases)
     seen = set()
     for c, o in pairs:
